@@ -1,73 +1,306 @@
+// C14 harness: the managed-endpoint expressions the engine registers with the
+// proxy vs what the engine itself matches.
+//
+// Suites (each case is executed on the implementation, monitored, and handed to
+// the Coq model C14.Model):
+//   expr      config.HaproxyEndpointFormat(method, url) (and the any-method
+//             expression the engine registers for a filter without methods):
+//             the Go string must equal print(format ..) byte for byte, and Go's
+//             regexp.MatchString on that string must equal the model's
+//             re_search on every subject (validates the regex semantics for the
+//             emitted fragment)
+//   flows     a flow set loaded by the production loader: manage_all flag and the
+//             registered expressions from the real buildHAProxyFlowsEndpointsRequest,
+//             the engine's selection per (method, URL) from the stream's own filter
+//             tree, is_managed evaluated with Go regexp
+//   policies  the same for policies.yaml endpoints (BuildHAProxyEndpointsRequest,
+//             BuildEndpointPolicyTree + the dispatcher's selection)
 package main
 
 import (
 	"fmt"
-	"os"
-	"path/filepath"
-	"time"
-
-	"lunar/engine/routing"
-	"lunar/engine/streams"
-	"lunar/engine/utils/environment"
-	context_manager "lunar/toolkit-core/context-manager"
 
 	"github.com/rs/zerolog"
+
+	c "verifharness/common"
 )
+
+const (
+	sExpr     = "expr"
+	sFlows    = "flows"
+	sPolicies = "policies"
+)
+
+const header = "From Coq Require Import String.\nFrom Verif Require Import C14.Model.\nOpen Scope string_scope."
+
+type run struct{ o *c.Out }
+
+func (r *run) flowCase(k *FlowCase, label string) {
+	o := r.o
+	execFlows(k)
+	nontrivial := false
+	for _, p := range k.Probes {
+		if len(p.Selected) > 0 {
+			nontrivial = true
+		}
+	}
+	idx := o.Case(sFlows, coqFlowCase(k), k, nontrivial)
+	o.Count("flows:" + label)
+	if !k.Loaded {
+		o.Count("flows:load-error")
+	}
+	o.CountN("flows:probes", len(k.Probes))
+	monitorFlows(o, sFlows, idx, k)
+}
+
+func (r *run) policyCase(k *PolicyCase, label string) {
+	o := r.o
+	execPolicies(k)
+	nontrivial := false
+	for _, p := range k.Probes {
+		if len(p.Rem)+len(p.Diag) > 0 {
+			nontrivial = true
+		}
+	}
+	idx := o.Case(sPolicies, coqPolicyCase(k), k, nontrivial)
+	o.Count("policies:" + label)
+	if !k.Accepted {
+		o.Count("policies:rejected")
+	}
+	o.CountN("policies:probes", len(k.Probes))
+	monitorPolicies(o, sPolicies, idx, k)
+}
+
+func (r *run) exprCase(k *ExprCase, label string) {
+	o := r.o
+	execExpr(k)
+	if k.Skip {
+		o.Count("expr:any-method-not-a-single-expression")
+		return
+	}
+	nontrivial := false
+	for _, s := range k.Subjects {
+		if s.Match {
+			nontrivial = true
+		}
+	}
+	idx := o.Case(sExpr, coqExprCase(k), k, nontrivial)
+	o.Count("expr:" + label)
+	o.CountN("expr:subjects", len(k.Subjects))
+	monitorExpr(o, sExpr, idx, k)
+}
+
+func plugsFor(i int) ([]Plug, []Plug) {
+	switch i % 5 {
+	case 0:
+		return []Plug{{1, true}}, nil
+	case 1:
+		return nil, []Plug{{2, true}}
+	case 2:
+		return []Plug{{1, false}, {3, true}}, []Plug{{2, false}}
+	case 3:
+		return []Plug{{1, false}}, nil // nothing enabled: not registered, nothing selected
+	}
+	return []Plug{{1, true}}, []Plug{{2, true}}
+}
+
+func pprobes(ps []Probe) []PProbe {
+	out := []PProbe{}
+	for _, p := range ps {
+		out = append(out, PProbe{Method: p.Method, URL: p.URL})
+	}
+	return out
+}
+
+func generate(r *run) {
+	o := r.o
+	wide := o.Thorough()
+	pats := basePatterns()
+	nRandom := o.Scale(250, 3000, 1500)
+	rg := o.Rng.Fork(1)
+	for i := 0; i < nRandom; i++ {
+		pats = append(pats, randomPattern(rg))
+	}
+	seen := map[string]bool{}
+	uniq := []string{}
+	for _, p := range pats {
+		if !seen[p] {
+			seen[p] = true
+			uniq = append(uniq, p)
+		}
+	}
+	pats = uniq
+
+	// ---- single flow per configuration: every pattern, rotating method lists
+	for i, p := range pats {
+		lists := [][]string{methodLists[i%len(methodLists)]}
+		if i%3 == 0 || wide {
+			lists = append(lists, methodLists[(i+1)%len(methodLists)])
+		}
+		for _, ms := range lists {
+			k := &FlowCase{Flows: []Flow{{ID: 0, URL: p, Methods: ms}}, Probes: probesFor(p, ms, wide)}
+			r.flowCase(k, "single")
+		}
+	}
+	// ---- several flows (collision-free universe, all load orders equivalent)
+	rm := o.Rng.Fork(2)
+	for n := 0; n < o.Scale(60, 600, 300); n++ {
+		cnt := rm.Range(2, 3)
+		k := &FlowCase{}
+		seenP := map[string]bool{}
+		for len(k.Flows) < cnt {
+			p := c.Pick(rm, safeUniverse)
+			if seenP[p] {
+				continue
+			}
+			seenP[p] = true
+			ms := methodLists[rm.Intn(len(methodLists))]
+			k.Flows = append(k.Flows, Flow{ID: len(k.Flows), URL: p, Methods: ms})
+		}
+		for _, f := range k.Flows {
+			ps := probesFor(f.URL, f.Methods, false)
+			if len(ps) > 14 {
+				ps = ps[:14]
+			}
+			k.Probes = append(k.Probes, ps...)
+		}
+		r.flowCase(k, "multi")
+	}
+	// ---- host-label / path-segment collisions (known finding of C03): verdicts from
+	//      a FilterTree filled in the listed order
+	for _, set := range collisionSets {
+		k := &FlowCase{Direct: true}
+		for i, p := range set {
+			k.Flows = append(k.Flows, Flow{ID: i, URL: p})
+		}
+		for _, p := range set {
+			for _, u := range []string{instance(monSplit(p), 0)} {
+				k.Probes = append(k.Probes, Probe{Method: "GET", URL: u})
+			}
+			if j := len(p); j > 0 {
+				sw := []byte(instance(monSplit(p), 0))
+				for x := range sw {
+					if sw[x] == '/' {
+						sw[x] = '.'
+						break
+					} else if sw[x] == '.' {
+						sw[x] = '/'
+						break
+					}
+				}
+				k.Probes = append(k.Probes, Probe{Method: "GET", URL: string(sw)})
+			}
+		}
+		k.Probes = append(k.Probes, Probe{Method: "GET", URL: "a.b/d"}, Probe{Method: "GET", URL: "h.x/y"})
+		r.flowCase(k, "collision")
+	}
+
+	// ---- single expressions: byte-for-byte + regex semantics
+	for i, p := range pats {
+		ms := []string{"GET"}
+		if l := methodLists[i%len(methodLists)]; len(l) > 0 {
+			ms = []string{l[0]}
+		}
+		if i%7 == 0 {
+			ms = append(ms, "A+B")
+		}
+		for _, m := range ms {
+			r.exprCase(&ExprCase{Method: m, URL: p, Subjects: subjectsFor(m, p)}, "method")
+		}
+		if i%4 == 0 || wide {
+			r.exprCase(&ExprCase{AnyMethod: true, URL: p, Subjects: subjectsFor("HEAD", p)}, "any-method")
+		}
+	}
+
+	// ---- policies
+	np := 0
+	for i, p := range pats {
+		if !(i%3 == 0 || wide) {
+			continue
+		}
+		m := []string{"GET", "POST", "get", "A+B"}[np%4]
+		rem, diag := plugsFor(np)
+		k := &PolicyCase{Decls: []Decl{{Method: m, URL: p, Rem: rem, Diag: diag}},
+			Probes: pprobes(probesFor(p, []string{m}, false))}
+		if np%11 == 0 {
+			k.GRem = []bool{false}
+			k.GDiag = []bool{np%22 == 0}
+		}
+		np++
+		r.policyCase(k, "single")
+	}
+	rp := o.Rng.Fork(3)
+	for n := 0; n < o.Scale(40, 400, 200); n++ {
+		cnt := rp.Range(2, 3)
+		k := &PolicyCase{}
+		for len(k.Decls) < cnt {
+			p := c.Pick(rp, safeUniverse)
+			m := c.Pick(rp, []string{"GET", "POST"})
+			rem, diag := plugsFor(rp.Intn(5))
+			for j := range rem {
+				rem[j].Name = 10*len(k.Decls) + rem[j].Name
+			}
+			for j := range diag {
+				diag[j].Name = 10*len(k.Decls) + diag[j].Name
+			}
+			k.Decls = append(k.Decls, Decl{Method: m, URL: p, Rem: rem, Diag: diag})
+		}
+		for _, d := range k.Decls {
+			ps := probesFor(d.URL, []string{d.Method}, false)
+			if len(ps) > 12 {
+				ps = ps[:12]
+			}
+			k.Probes = append(k.Probes, pprobes(ps)...)
+		}
+		r.policyCase(k, "multi")
+	}
+}
 
 func main() {
 	zerolog.SetGlobalLevel(zerolog.Disabled)
-	environment.SetProcessorsDirectory(filepath.Join(os.Getenv("VERIF_REPO"),
-		"proxy/src/services/lunar-engine/streams/processors/registry"))
-	context_manager.Get().SetMockClock()
-	base := "/tmp/c14probe/cfg"
-	os.RemoveAll(base)
-	for _, d := range []string{"flows", "quotas", "pp"} {
-		os.MkdirAll(filepath.Join(base, d), 0o755)
+	o := c.NewOut("C14")
+	o.ShardSize = 60
+	o.DeclareSuite(sExpr, header, "case_expr", "run_expr")
+	o.DeclareSuite(sFlows, header, "case_flows", "run_flows")
+	o.DeclareSuite(sPolicies, header, "case_policies", "run_policies")
+	o.Rule("URL patterns: every ASCII punctuation character inside a path segment / alone as a segment / inside a host label, " +
+		"a list of special segments ({id}, {user.id}, {}, {a}{b}, {id}x, unbalanced braces, regex operators, ':::') in path and host " +
+		"position, trailing wildcards in path and host position, untrimmed and malformed spellings, the four patterns of the " +
+		"repository's test, random combinations; x method lists (none, GET, several, lower case, M-SEARCH, A+B, G.T); x request " +
+		"URLs derived from the pattern (instances with several parameter values, wildcard tails, trailing/leading '/' and '.', extra / " +
+		"missing segments, empty segment at a parameter, extra host label, host/path switched, case variants, single-character " +
+		"mutations at every regex-special position, strings an unquoted regex would accept) x verbs (listed, other, lower case). " +
+		"A flows/policies case = one configuration loaded by the real loader with all its probes; an expr case = one expression with " +
+		"all its subjects; non-trivial = some probe selects a filter / some subject is matched")
+	r := &run{o: o}
+	if o.Replay != "" {
+		replay(r)
+		o.Finish()
+		return
 	}
-	dir := `    - from:
-        stream:
-          name: globalStream
-          at: start
-      to:
-        processor:
-          name: probe
-    - from:
-        processor:
-          name: probe
-          condition: hit
-      to:
-        stream:
-          name: globalStream
-          at: end
-    - from:
-        processor:
-          name: probe
-          condition: miss
-      to:
-        stream:
-          name: globalStream
-          at: end
-`
-	y := "name: f00\nfilter:\n  url: \"a.com/x/{id}\"\nprocessors:\n  probe:\n    processor: Filter\n    parameters:\n      - key: header\n        value: x-never=1\nflow:\n  request:\n" + dir + "  response:\n" + dir
-	os.WriteFile(filepath.Join(base, "flows", "f00.yaml"), []byte(y), 0o644)
-	environment.SetStreamsFlowsDirectory(filepath.Join(base, "flows"))
-	environment.SetQuotasDirectory(filepath.Join(base, "quotas"))
-	environment.SetPathParamsDirectory(filepath.Join(base, "pp"))
-	t := time.Now()
-	for i := 0; i < 20; i++ {
-		st, err := streams.NewStream()
-		if err != nil {
-			panic(err)
-		}
-		if err := st.Initialize(); err != nil {
-			panic(err)
-		}
-		r := routing.VerifC14FlowsEndpointsRequest(st)
-		if i == 0 {
-			for _, e := range r.ManagedEndpoints {
-				fmt.Println(e.Endpoint)
-			}
-		}
+	generate(r)
+	o.Finish()
+}
+
+func replay(r *run) {
+	var probe struct {
+		Flows []Flow `json:"flows"`
+		Decls []Decl `json:"declarations"`
 	}
-	fmt.Println(time.Since(t) / 20)
+	suite, _ := r.o.ReplayCase(&probe)
+	switch {
+	case suite == sFlows || len(probe.Flows) > 0:
+		var k FlowCase
+		r.o.ReplayCase(&k)
+		r.flowCase(&k, "replay")
+	case suite == sPolicies || len(probe.Decls) > 0:
+		var k PolicyCase
+		r.o.ReplayCase(&k)
+		r.policyCase(&k, "replay")
+	default:
+		var k ExprCase
+		r.o.ReplayCase(&k)
+		r.exprCase(&k, "replay")
+	}
+	fmt.Println("replayed", suite)
 }
